@@ -373,6 +373,16 @@ func (c *genCtx) gen(depth int, nn, incap bool) *Expr {
 					return Not(Group("", in))
 				}
 				return Not(in)
+			case 3:
+				// a negation of a modified group whose content starts with another negation: ~( (~x)* ), ~[ ~x y ]
+				// (printing it needs the parentheses that keep the two `~` apart; C14-r11m1)
+				var body *Expr = Not(c.leaf())
+				if c.draw(0, 2, "negnegtail") == 0 {
+					body = Seq(body, c.leaf())
+				}
+				g := Group(rapid.SampledFrom([]string{"*", "?", "+", "!"}).Draw(c.t, "negnegmod"), body)
+				g.Style = c.draw(0, 2, "negnegstyle")
+				return Not(g)
 			}
 		}
 		var n *Expr
